@@ -107,7 +107,18 @@ func TestInterleavedRequests(t *testing.T) {
 		if typ == 3 {
 			o.ClientSecret = gen.P384KeyBytes().Draw(t, "clientSecret")
 		}
+		// in a quarter of the cases the challenges of consecutive requests are a pair of different byte strings of equal length
+		// that a weak checksum (CRC-32, FNV, Adler, byte sum / xor) cannot tell apart
+		var pair *gen.Collision
+		if gen.Uniform(t, 4, "collidingChallenges") == 0 {
+			c := gen.Pick(t, gen.WeakHashCollisions("challenge %s for a token"), "family")
+			pair = &c
+			s.Class("challenges-colliding-under-" + c.Hash)
+		}
 		for i := 0; i < n; i++ {
+			if pair != nil {
+				o.Challenge = []byte([]string{pair.A, pair.B}[i%2])
+			}
 			sess, err := gen.NewSession(t, typ, o)
 			if err != nil {
 				rt.Fail(t, fmt.Sprintf("C01/%s/create", gen.TypeName(typ)), "request creation failed: %v", err)
@@ -154,4 +165,50 @@ func rsaIndex(s *gen.Session) int {
 		}
 	}
 	return -1
+}
+
+// TestCollidingChallenges: for every token type and every weak-checksum family, two honest issuances by one client
+// object whose challenges are different byte strings of equal length with the same checksum (CRC-32 IEEE / Castagnoli,
+// FNV-1 / FNV-1a, Adler-32, byte sum, byte xor). Whatever is remembered per challenge under such a key would hand the
+// second issuance the first one's digest; each token must carry SHA-256 of ITS challenge.
+func TestCollidingChallenges(t *testing.T) {
+	s := rt.S("colliding-challenges").SetRule("4 token types x 7 checksum families (all of them in every case), two issuances each with challenges that collide under the family's checksum and have equal length; same oracle per run (token = type || nonce || SHA-256(own challenge) || key id || authenticator, verifies independently). non-trivial = every pair; distinct by (type, family, keys)")
+	rt.Check(t, 1, 160, func(t *rapid.T) {
+		defer rt.Entropy(gen.Seed().Draw(t, "entropy"))()
+		for _, typ := range []uint16{1, 2, 3, 5} {
+			for _, c := range gen.WeakHashCollisions("challenge %s for a token") {
+				cl := gen.NewClients()
+				o := gen.SessionOpts{MaxBatch: 3, RKeyIdx: -1, Clients: cl}
+				if typ == 3 {
+					o.ClientSecret = gen.P384KeyBytes().Draw(t, "clientSecret")
+				}
+				for i, ch := range []string{c.A, c.B, c.A} {
+					o.Challenge = []byte(ch)
+					sess, err := gen.NewSession(t, typ, o)
+					if err != nil {
+						rt.Fail(t, fmt.Sprintf("C01/%s/create", gen.TypeName(typ)), "request creation failed: %v", err)
+						return
+					}
+					resp, err := sess.IssueWire(append([]byte{}, sess.RequestBytes...))
+					if err != nil {
+						rt.Fail(t, fmt.Sprintf("C01/%s/issue", gen.TypeName(typ)), "issuer failed on an honest request: %v", err)
+						return
+					}
+					toks, err := sess.Finalize(append([]byte{}, resp...))
+					if err != nil {
+						rt.Fail(t, fmt.Sprintf("C01/%s/finalize", gen.TypeName(typ)), "client rejected the honest response: %v", err)
+						return
+					}
+					if err := sess.CheckTokens(toks); err != nil {
+						rt.Fail(t, fmt.Sprintf("C01/%s/token", gen.TypeName(typ)), "issuance %d of 3 with challenges %q / %q (equal length, equal %s): %v", i+1, c.A, c.B, c.Hash, err)
+						return
+					}
+					s.Eval()
+					s.Class(gen.TypeName(typ) + "/" + c.Hash)
+					s.Nontrivial([]byte{byte(typ), byte(i)}, []byte(c.Hash), sess.RequestBytes)
+				}
+			}
+		}
+		s.Sample(func() any { return gen.WeakHashCollisions("challenge %s for a token") })
+	})
 }
